@@ -273,6 +273,85 @@ class Vec(object):
         return Vec(reversed(self.xs))
 
 
+class Pairs(object):
+    """every public name has an `exposed_` namesake with a DIFFERENT value - attribute, method, property - so that an
+    access answered by the wrong one of the two shows; the hash is value-based over mutable state (and `__eq__`
+    consistent with it), so that a stale hash shows"""
+
+    def __init__(self, seed):
+        self.level = seed % 7
+        self.exposed_level = 100 + seed % 7
+        self._mode = "plain"
+        self._emode = "exposed"
+        self.log = []
+
+    def read(self):
+        self.log.append("read")
+        return ("plain", self.level)
+
+    def exposed_read(self):
+        self.log.append("exposed_read")
+        return ("exposed", self.exposed_level)
+
+    def bump(self, by=1):
+        self.level += by
+        return self.level
+
+    def exposed_bump(self, by=1):
+        self.exposed_level += 10 * by
+        return self.exposed_level
+
+    @property
+    def mode(self):
+        return self._mode
+
+    @mode.setter
+    def mode(self, v):
+        self._mode = "plain:%s" % (v,)
+
+    @mode.deleter
+    def mode(self):
+        self._mode = "plain:deleted"
+
+    @property
+    def exposed_mode(self):
+        return self._emode
+
+    @exposed_mode.setter
+    def exposed_mode(self, v):
+        self._emode = "exposed:%s" % (v,)
+
+    @exposed_mode.deleter
+    def exposed_mode(self):
+        self._emode = "exposed:deleted"
+
+    def __hash__(self):
+        return hash((self.level, self._mode))
+
+    def __eq__(self, o):
+        if isinstance(o, Pairs):
+            return (self.level, self._mode) == (o.level, o._mode)
+        if type(o) is tuple:
+            return (self.level, self._mode) == o
+        return NotImplemented
+
+    def __ne__(self, o):
+        r = self.__eq__(o)
+        return r if r is NotImplemented else not r
+
+    def __iadd__(self, n):
+        if type(n) is not int:
+            return NotImplemented
+        self.level += n
+        return self
+
+    def __len__(self):
+        return abs(self.level)
+
+    def __repr__(self):
+        return "Pairs(level=%r, exposed_level=%r, mode=%r, exposed_mode=%r)" % (self.level, self.exposed_level, self._mode, self._emode)
+
+
 def gen_squares(n, fail_at=None):
     for i in range(n):
         if fail_at is not None and i == fail_at:
@@ -280,7 +359,7 @@ def gen_squares(n, fail_at=None):
         yield i * i
 
 
-KINDS = ["list", "dict", "set", "bytearray", "deque", "generator", "bytesio", "vec"]
+KINDS = ["list", "dict", "set", "bytearray", "deque", "generator", "bytesio", "vec", "pairs"]
 
 
 def make_object(kind, seed):
@@ -308,6 +387,8 @@ def make_object(kind, seed):
         return io.BytesIO(r.bytes(r.below(20)))
     if kind == "vec":
         return Vec(r.range(-4, 9) for _ in range(1 + r.below(5)))
+    if kind == "pairs":
+        return Pairs(r.below(1000))
     raise ValueError(kind)
 
 
@@ -335,8 +416,8 @@ def snap(o, depth=0):
         return ("bytearray", bytes(o).hex())
     if t is collections.deque:
         return ("deque", [snap(x, depth + 1) for x in o], o.maxlen)
-    if t is Vec:
-        return ("Vec", sorted((k, repr(snap(v, depth + 1))) for k, v in vars(o).items()))
+    if t is Vec or t is Pairs:
+        return (t.__name__, sorted((k, repr(snap(v, depth + 1))) for k, v in vars(o).items()))
     if t is io.BytesIO:
         return ("BytesIO", True) if o.closed else ("BytesIO", False, o.getvalue().hex(), o.tell())
     if t.__name__ == "generator":
@@ -646,6 +727,7 @@ def build_ops():
         O("str", lambda o: str(o), (), []),
         O("repr", lambda o: repr(o), (), []),
         O("hash", lambda o: hash(o), (), []),
+        O("hash-mutate-hash", lambda o: hash_mutate_hash(o), (), [("get", "__iadd__")], kinds=["vec", "pairs"]),
         O("dir", lambda o: tuple(sorted(dir(o))), (), []),
         O("format", lambda o: format(o, ""), (), [("get", "__format__")]),
         O("isinstance", lambda o: (isinstance(o, list), isinstance(o, dict), isinstance(o, (set, bytearray)),
@@ -664,6 +746,13 @@ def build_ops():
         O("call", lambda o, a, b: o(a, x=b), ("value", "any"), [], kinds=["vec"]),
     ]
     return ops
+
+
+def hash_mutate_hash(o):
+    """a value-based hash must follow the target's state: hash, change what the hash depends on, hash again"""
+    h1 = hash(o)
+    operator.iadd(o, 1)
+    return (h1, hash(o))
 
 
 def iter_items(o):
@@ -711,11 +800,19 @@ METHODS = {
                 ("readlines", ()), ("writelines", ("bytestuple",))],
     "vec": [("scale", ("smallint",)), ("scale", ("smallint", "kw:offset")), ("scale", ("smallint", "smallint", "value", "kw:z")),
             ("boom", ()), ("boom", ("excname", "value")), ("peer", ()), ("exposed_secret", ()), ("_coerce", ("value",))],
+    "pairs": [("read", ()), ("exposed_read", ()), ("bump", ()), ("bump", ("smallint",)), ("exposed_bump", ()),
+              ("exposed_bump", ("kw:by",)), ("read", ()), ("exposed_read", ())],
 }
+# under the default configuration a public name that has an `exposed_` namesake is answered by the namesake - by design,
+# not the same operation - so there only the `exposed_` names themselves (and names without a namesake) are used
+PAIRS_DEFAULT_METHODS = [m for m in METHODS["pairs"] if m[0].startswith("exposed_")]
+PAIRS_DEFAULT_ATTRS = ["exposed_level", "exposed_mode", "exposed_read", "log", "missing", "_mode"]
 ATTRS = {"vec": ["xs", "log", "tag", "norm", "first", "_hidden", "missing", "new_attr", "exposed_secret", "__dict__", "__doc__"],
          "bytesio": ["closed", "missing", "mode", "name"], "generator": ["gi_running", "missing", "gi_code", "__name__"],
          "list": ["missing", "__doc__", "__len__"], "dict": ["missing", "__doc__"], "set": ["missing"], "bytearray": ["missing"],
-         "deque": ["maxlen", "missing"]}
+         "deque": ["maxlen", "missing"],
+         "pairs": ["level", "exposed_level", "mode", "exposed_mode", "level", "exposed_level", "mode", "exposed_mode", "read",
+                   "exposed_read", "log", "missing", "_mode"]}
 CHUNKS = [-1, 0, 1, 2, 3, 10, 100]
 MAXCHUNKS = [-1, 0, 1, 2, 5, 1000]
 FACTORS = [0, 1, 2, 3, -2]
@@ -824,6 +921,8 @@ def pick_operand(tw, r, spec, length):
     if spec == "excname":
         return imm(r.choice(["ValueError", "KeyError", "ZeroDivisionError", "StopIteration", "TypeError"]))
     if spec == "attrname":
+        if k == "pairs" and tw.config_name == "default":
+            return imm(r.choice(PAIRS_DEFAULT_ATTRS))
         return imm(r.choice(ATTRS.get(k, ["missing"])))
     if spec == "chunk":
         return imm(r.choice(CHUNKS))
@@ -908,7 +1007,9 @@ def gen_sequence(r, kind, n_ops, ops):
         if supported and c >= 50 and r.chance(1, 2):
             seq.append((r.choice(supported), r.next()))
             continue
-        if c < 30:
+        if kind in ("vec", "pairs") and c >= 92:
+            i = r.choice([j for j in cands if ops[j].label in ("hash", "hash-mutate-hash")])
+        elif c < 30:
             i = [j for j in cands if ops[j].label == "method"][0]
         elif c < 42:
             i = r.choice([j for j in cands if ops[j].label in ("getattr", "setattr", "delattr")])
@@ -938,7 +1039,7 @@ def run_sequence(kind, config_name, seed, seq, ops, stop_at_first=True, skip_sig
             label = spec.label
             names = spec.names
             if spec.label == "method":
-                mname, margs = r.choice(METHODS[kind])
+                mname, margs = r.choice(METHODS[kind] if not (kind == "pairs" and config_name == "default") else PAIRS_DEFAULT_METHODS)
                 operands, kwnames = [], []
                 for a in margs:
                     if a.startswith("kw:"):
